@@ -40,7 +40,7 @@ def run(tier):
                             "self / cross foreign keys with all five actions); each executed on a real SQLite file"}
     # MySQL / PostgreSQL, catalogue level (no engine): a column modified in place; differ -> planner -> the column clauses interpreted by
     # ColCatalog.tla must arrive at the desired columns
-    v.cov["catalog_column_level"] = plancat.colmod(v, "colmod-up", "catalog-colmod")
+    v.cov["catalog_column_level"] = plancat.colmod(v, "-up", "catalog-colmod")
     v.samples = engine.sample(full)
     v.assumptions = ["the harness's DDL renderer and pragma projection are correct (every start state is re-projected and compared with the model state before use)",
                      "literal defaults, column index parts, one foreign key per table; TEXT -> INT type changes and NOT NULL additions without default are outside the domain (the engine itself refuses the data)"]
